@@ -454,7 +454,9 @@ fn c26_case(c: &NameCase) -> CaseResult {
     let t1 = s.login(&u1, PASSWORD).ok_or_else(|| Fail::new("harness: login failed", u1.clone()))?;
     let t2 = s.login(&u2, PASSWORD).ok_or_else(|| Fail::new("harness: login failed", u2.clone()))?;
     // a well-behaved database of the other user and of the same user, to collide with
-    for (t, u, d) in [(&t2, &u2, "x"), (&t1, &u1, "x")] {
+    // "xx" is there because its name merely starts with the name of "x": an operation on "x"
+    // must not touch it
+    for (t, u, d) in [(&t2, &u2, "x"), (&t1, &u1, "x"), (&t1, &u1, "xx")] {
         let r = s.call("POST", &format!("/api/v1/db/{u}/{d}/add?db_type=mapped"), Some(t), None);
         if !r.ok() {
             return Err(Fail::new("harness: cannot add plain db", format!("{} {}", r.status, r.text())));
@@ -479,7 +481,13 @@ fn c26_case(c: &NameCase) -> CaseResult {
     let protected: Vec<String> = {
         // files of the plain databases that no other database may touch
         let m = manifest(&s.root);
-        m.keys().filter(|k| k.starts_with(&format!("{data_rel}/{u2}/")) || *k == &format!("{data_rel}/{u1}/x") || *k == &format!("{data_rel}/{u1}/.x") || k.starts_with(&format!("{data_rel}/{u1}/backups/x.")) || k.starts_with(&format!("{data_rel}/{u1}/audit/x."))).cloned().collect()
+        m.keys()
+            .filter(|k| {
+                k.starts_with(&format!("{data_rel}/{u2}/"))
+                    || ["x", "xx"].iter().any(|d| *k == &format!("{data_rel}/{u1}/{d}") || *k == &format!("{data_rel}/{u1}/.{d}") || k.starts_with(&format!("{data_rel}/{u1}/backups/{d}.")) || k.starts_with(&format!("{data_rel}/{u1}/audit/{d}.")))
+            })
+            .cloned()
+            .collect()
     };
     for op in &c.ops {
         let before = manifest(&s.root);
@@ -531,8 +539,9 @@ fn c26_case(c: &NameCase) -> CaseResult {
             }
             // no other database's files (main, log, backup, audit) may be touched by a request on
             // a differently named database
-            let acts_on_x = decoded == "x" && !matches!(op, NameOp::Copy);
-            if protected.contains(k) && !acts_on_x && !(matches!(op, NameOp::Copy) && false) {
+            let own_file_of = |d: &str| *k == format!("{data_rel}/{u1}/{d}") || *k == format!("{data_rel}/{u1}/.{d}") || k.starts_with(&format!("{data_rel}/{u1}/backups/{d}.")) || k.starts_with(&format!("{data_rel}/{u1}/audit/{d}."));
+            let acts_on_it = !matches!(op, NameOp::Copy) && ((decoded == "x" && own_file_of("x") && !own_file_of("xx")) || (decoded == "xx" && own_file_of("xx")));
+            if protected.contains(k) && !acts_on_it {
                 // copying x only reads it; any change of x's files by an operation on another name collides
                 return Err(Fail::new(
                     confinement_sig(class, "two databases share a file"),
@@ -706,7 +715,13 @@ fn name_case_with(plain_only: bool) -> impl Strategy<Value = NameCase> {
         1 => Just(NameOp::Remove),
         2 => any::<bool>().prop_map(NameOp::Transfer),
     ];
-    (prop::collection::vec(piece(), 1..4), prop::collection::vec(piece(), 1..4), prop::collection::vec(op, 2..7)).prop_map(|(name, other, mut ops)| {
+    (prop::collection::vec(piece(), 1..4), prop::collection::vec(piece(), 1..4), prop::collection::vec(op, 2..7)).prop_map(move |(name, other, mut ops)| {
+        // a fifth of the plain-name cases act on the database "x" itself, next to which a
+        // database "xx" (whose name merely starts with "x") lives
+        let mut name = name;
+        if plain_only && ops.len() % 5 == 0 {
+            name = vec![(1u8, false)];
+        }
         ops.insert(0, NameOp::Add(1));
         if ops.len() % 2 == 0 {
             ops.insert(1, NameOp::Backup);
